@@ -70,36 +70,37 @@ def rule_r2(chk, db, roles):
     ph = [(bi, t) for bi, t in prep.calls() if t["callee"].get("trait") == roles.S3Host]
     chk.floor("R2", len(ph), 1, "S3Host::parse_host_header call sites")
     for bi, t in ph:
+        # prepare is studied with its helpers inlined: the host parser call must be dominated by "parse::<SocketAddr>() failed" and by
+        # "parse::<IpAddr>() failed", each applied to the whole Host value that is then handed to the parser
         f = guards.dominating_facts(prep, bi)
-        helpers = [x for x in f if x[0] == "call" and x[1].startswith("s3s::ops::") and x[2] is False]
-        ok = False
-        why = "no IP/socket-address test dominates the host parser call"
-        for x in helpers:
-            hb = db.body(x[1])
-            if hb is None:
+        hsl = flow.backward(prep, t["args"][1], at=bi)
+        failed = {}
+        for x in f:
+            if x[0] != "call":
                 continue
-            # the helper's argument is the host header itself
+            d = x[1]
+            neg = (d.endswith("Result::<T, E>::is_ok") and x[2] is False) or (d.endswith("Result::<T, E>::is_err") and x[2] is True)
+            if not neg:
+                continue
             ct = prep.blocks[x[3]]["term"]
-            a_root = flow.resolve_place(prep, ct["args"][0])
-            h_root = flow.resolve_place(prep, t["args"][1])
-            # helper body: parse::<SocketAddr> and parse::<IpAddr>, each directly on the parameter
-            kinds = {}
-            for b2, t2 in hb.calls():
-                if callee_def(t2) == "core::str::<impl str>::parse":
-                    ga = t2["callee"].get("args", "")
-                    sl = flow.backward(hb, t2["args"][0], at=b2)
-                    direct = not [1 for _, c, _ in sl.calls if not flow.is_transparent(c)] and any(l == 1 for l, _ in sl.params)
-                    if "SocketAddr" in ga:
-                        kinds["SocketAddr"] = direct
-                    elif "IpAddr" in ga:
-                        kinds["IpAddr"] = direct
-            if kinds.get("SocketAddr") and kinds.get("IpAddr"):
-                # returns true if either parses
-                ok = True
-                for w in flow.return_writes(hb):
-                    pass
-            else:
-                why = "the address test %s does not apply both `parse::<SocketAddr>` and `parse::<IpAddr>` to the whole host (found %s): e.g. `[::1]:8014` or `127.0.0.1:80` would reach the host parser" % (short(x[1]), kinds)
+            sl = flow.backward(prep, ct["args"][0], at=x[3])
+            for pb, pt, _ in sl.calls:
+                if callee_def(pt) != "core::str::<impl str>::parse":
+                    continue
+                ga = pt["callee"].get("args", "")
+                kind = "SocketAddr" if "SocketAddr" in ga else ("IpAddr" if "IpAddr" in ga else None)
+                if kind is None:
+                    continue
+                # applied to the host value itself: nothing but views between the header and the parse
+                psl = flow.backward(prep, pt["args"][0], at=pb)
+                direct = not [1 for _, c, _ in psl.calls if not flow.is_transparent(c) and (pb, pt) != (_, c) and c is not pt and
+                              short(callee_def(c)) not in ("as_deref", "as_str", "as_ref", "deref", "extract_host", "to_str", "get", "map_err", "ok_or_else",
+                                                           "map", "transpose", "and_then", "into_owned", "to_owned")]
+                same = bool(psl.locals & hsl.locals)
+                failed[kind] = failed.get(kind, False) or (direct and same)
+        ok = failed.get("SocketAddr", False) and failed.get("IpAddr", False)
+        why = "the host parser is reached without both `parse::<SocketAddr>` and `parse::<IpAddr>` having failed on the whole Host value (found %s): " \
+              "e.g. `[::1]:8014` or `127.0.0.1:80` would be treated as a virtual-host name" % failed
         chk.verdict(ok, "R2", "ip-guard", prep.loc(bi), why)
     # on the address side the path-style parser is used with no virtual-host bucket
     vb = [bi for bi, si, st in prep.stmts() if prep.local_name(st["dst"]["l"]) == "vh_bucket" and not st["dst"]["proj"]]
